@@ -5,16 +5,16 @@ src=$1; id=$2; prop=$3
 wt=$(mktemp -d /tmp/cs-XXXXXX); rmdir $wt
 git -C /repo worktree add -q --detach $wt HEAD || exit 3
 cd $wt
-/venv/bin/python $src/demo.py >/dev/null 2>&1; d0=$?
+PYTHONPATH=$wt /venv/bin/python $src/demo.py >/dev/null 2>&1; d0=$?
 git apply $src/patch.diff || { echo "patch does not apply"; cd /; git -C /repo worktree remove --force $wt; exit 3; }
 /venv/bin/python -m pytest -q -p no:cacheprovider -x test >/tmp/cs-pytest.$$ 2>&1; t=$?
 tests=$(tail -1 /tmp/cs-pytest.$$); rm -f /tmp/cs-pytest.$$
-/venv/bin/python $src/demo.py >/dev/null 2>&1; d1=$?
+PYTHONPATH=$wt /venv/bin/python $src/demo.py >/dev/null 2>&1; d1=$?
 cd /; git -C /repo worktree remove --force $wt
 echo "$id: demo-without=$d0 tests-with=$t ($tests) demo-with=$d1"
 if [ $d0 -eq 0 ] && [ $t -eq 0 ] && [ $d1 -ne 0 ]; then
   mkdir -p /verif/seeded/$id
-  cp $src/patch.diff $src/demo.py /verif/seeded/$id/
+  cp $src/patch.diff $src/demo.py /verif/seeded/$id/; [ -f $src/README.txt ] && cp $src/README.txt /verif/seeded/$id/notes.md
   [ -f $src/notes.md ] && cp $src/notes.md /verif/seeded/$id/
   echo CONFIRMED
 else
